@@ -159,13 +159,19 @@ class CharPruner:
         self.cache: Dict[Tuple[str, ...], Optional[bool]] = {}
         self.decided = 0
         self.handed_back = 0
+        self._vcache: Dict[str, frozenset] = {}
+        self._pcache: Dict[str, frozenset] = {}
+        self._nodes = 0
 
-    def feasible(self, conds: Sequence[Any]) -> Optional[bool]:
-        """True / False when decided exactly, None when the solver has to look."""
-        key = tuple(sorted(c.sx if is_sym(c) else str(bool(c)) for c in conds))
+    def feasible(self, conds: Sequence[Any], focus: Any = None) -> Optional[bool]:
+        """True / False when decided exactly, None when the solver has to look.  `focus` = the newly added condition:
+        only the conjuncts connected to it through shared character variables are examined (the rest of the path
+        condition was found feasible when it was built, or is examined by the solver at the end; dropping it can only
+        turn an 'infeasible' answer into 'feasible', never the other way round)."""
+        key = tuple(sorted(c.sx if is_sym(c) else str(bool(c)) for c in conds)) + ((focus.sx,) if is_sym(focus) else ())
         if key in self.cache:
             return self.cache[key]
-        r = self._feasible(conds)
+        r = self._feasible(conds, focus)
         self.cache[key] = r
         if r is None:
             self.handed_back += 1
@@ -173,82 +179,190 @@ class CharPruner:
             self.decided += 1
         return r
 
-    def _feasible(self, conds: Sequence[Any]) -> Optional[bool]:
-        cj = conjuncts(conds)
+    def _feasible(self, conds: Sequence[Any], focus: Any = None) -> Optional[bool]:
+        cj = conjuncts(list(conds) + ([focus] if focus is not None else []))
         if cj is None:
             return False
-        self._budget = 400
-        return self._solve([nnf(t, False) for t in cj])
-
-    def _solve(self, cj0: List[Any]) -> Optional[bool]:
-        """Case split on disjunctions (after negation normal form), then the single-/multi-variable decision."""
-        cj: List[Any] = []
-        stack = list(cj0)
-        while stack:
-            t = stack.pop()
-            if isinstance(t, list) and t and t[0] == "and":
-                stack.extend(t[1:])
-            else:
-                cj.append(t)
-        for i, t in enumerate(cj):
-            if isinstance(t, list) and t and t[0] == "or":
+        cj = [nnf(t, False) for t in cj]
+        if is_sym(focus):
+            fv: Set[str] = set()
+            _vars(parse(focus.sx), self.names, fv)
+            vsets = []
+            for t in cj:
                 vs: Set[str] = set()
                 _vars(t, self.names, vs)
-                if len(vs) <= 1:
-                    continue            # a disjunction over one character is evaluated pointwise below
-                rest = cj[:i] + cj[i + 1:]
-                unknown = False
-                for d in t[1:]:
-                    self._budget -= 1
-                    if self._budget < 0:
-                        return None
-                    r = self._solve(rest + [d])
-                    if r is True:
-                        return True
-                    if r is None:
-                        unknown = True
-                return None if unknown else False
-        return self._decide(cj)
+                vsets.append(vs)
+            reach = set(fv)
+            changed = True
+            while changed:
+                changed = False
+                for vs in vsets:
+                    if vs & reach and not vs <= reach:
+                        reach |= vs
+                        changed = True
+            cj = [t for t, vs in zip(cj, vsets) if (vs & reach) or not vs]
+        self._budget = 400
+        return self._solve(cj)
 
-    def _decide(self, cj: List[Any]) -> Optional[bool]:
-        single: Dict[str, List[Any]] = {}
-        multi: List[Tuple[Any, Tuple[str, ...]]] = []
-        for t in cj:
+    # -- set-based decision -----------------------------------------------------------------------------------------
+    def _key(self, t: Any) -> str:
+        return t if isinstance(t, str) else "(" + " ".join(self._key(x) for x in t) + ")"
+
+    def _tvars(self, t: Any, key: str) -> frozenset:
+        hit = self._vcache.get(key)
+        if hit is None:
             vs: Set[str] = set()
             _vars(t, self.names, vs)
-            if len(vs) == 1:
-                single.setdefault(next(iter(vs)), []).append(t)
-            elif len(vs) == 0:
-                try:
+            hit = self._vcache[key] = frozenset(vs)
+        return hit
+
+    def _points(self, t: Any, key: str, v: str) -> frozenset:
+        """domain points of the single variable v that satisfy t (cached per conjunct text)."""
+        hit = self._pcache.get(key)
+        if hit is None:
+            hit = self._pcache[key] = frozenset(x for x in self.dom if ev(t, {v: x}))
+        return hit
+
+    def _as_cube(self, t: Any) -> Optional[Dict[str, frozenset]]:
+        """t as a conjunction of single-variable constraints {var: allowed points}; None if it is not of that form."""
+        parts = []
+        stack = [t]
+        while stack:
+            x = stack.pop()
+            if isinstance(x, list) and x and x[0] == "and":
+                stack.extend(x[1:])
+            else:
+                parts.append(x)
+        cube: Dict[str, frozenset] = {}
+        for x in parts:
+            k = self._key(x)
+            vs = self._tvars(x, k)
+            if len(vs) == 0:
+                if not ev(x, {}):
+                    return {"": frozenset()}
+                continue
+            if len(vs) != 1:
+                return None
+            v = next(iter(vs))
+            pts = self._points(x, k, v)
+            cube[v] = cube[v] & pts if v in cube else pts
+        return cube
+
+    def _solve(self, cj0: List[Any]) -> Optional[bool]:
+        full = frozenset(self.dom)
+        cand: Dict[str, frozenset] = {}
+        ors: List[List[Dict[str, frozenset]]] = []
+        multi: List[Tuple[Any, frozenset]] = []
+        stack = list(cj0)
+        try:
+            while stack:
+                t = stack.pop()
+                if isinstance(t, list) and t and t[0] == "and":
+                    stack.extend(t[1:])
+                    continue
+                k = self._key(t)
+                vs = self._tvars(t, k)
+                if len(vs) == 0:
                     if not ev(t, {}):
                         return False
-                except Unsupported:
-                    return None
-            else:
-                multi.append((t, tuple(sorted(vs))))
-        cand: Dict[str, List[int]] = {}
-        try:
-            for v, ts in single.items():
-                cand[v] = [x for x in self.dom if all(ev(t, {v: x}) for t in ts)]
-                if not cand[v]:
-                    return False
+                elif len(vs) == 1:
+                    v = next(iter(vs))
+                    cand[v] = cand.get(v, full) & self._points(t, k, v)
+                    if not cand[v]:
+                        return False
+                elif isinstance(t, list) and t[0] == "or":
+                    ds: List[Any] = []
+                    st2 = list(t[1:])
+                    while st2:
+                        d = st2.pop()
+                        if isinstance(d, list) and d and d[0] == "or":
+                            st2.extend(d[1:])
+                        else:
+                            ds.append(d)
+                    cubes = [self._as_cube(d) for d in ds]
+                    if any(c is None for c in cubes):
+                        multi.append((t, vs))
+                    else:
+                        ors.append([c for c in cubes if c is not None])
+                else:
+                    multi.append((t, vs))
         except Unsupported:
             return None
+        self._nodes = 0
+        return self._dpll(cand, ors, multi, full)
+
+    def _dpll(self, cand: Dict[str, frozenset], ors: List[List[Dict[str, frozenset]]],
+              multi: List[Tuple[Any, frozenset]], full: frozenset) -> Optional[bool]:
+        self._nodes += 1
+        if self._nodes > 3000:
+            return None
+        cand = dict(cand)
+        ors = list(ors)
+        while True:
+            again = False
+            rest = []
+            for o in ors:
+                live = [d for d in o if all(cand.get(v, full) & s_ for v, s_ in d.items())]
+                if not live:
+                    return False
+                if any(all(cand.get(v, full) <= s_ for v, s_ in d.items()) for d in live):
+                    continue                      # already satisfied whatever else is chosen
+                if len(live) == 1:
+                    for v, s_ in live[0].items():
+                        cand[v] = cand.get(v, full) & s_
+                    again = True
+                    continue
+                rest.append(live)
+            ors = rest
+            if not again:
+                break
+        if ors:
+            ors.sort(key=len)
+            first, others = ors[0], ors[1:]
+            unknown = False
+            for d in first:
+                c2 = dict(cand)
+                for v, s_ in d.items():
+                    c2[v] = c2.get(v, full) & s_
+                r = self._dpll(c2, others, multi, full)
+                if r is True:
+                    return True
+                if r is None:
+                    unknown = True
+            return None if unknown else False
         if not multi:
             return True
-        # brute force the multi-variable conjuncts over the variables they mention, when small enough
-        mvars = sorted({v for _t, vs in multi for v in vs})
-        size = 1
-        for v in mvars:
-            size *= len(cand.get(v, self.dom))
+        # remaining multi-variable atoms: brute force per connected group of variables when small enough
+        groups: List[Tuple[Set[str], List[Any]]] = []
+        for t, vs in multi:
+            g = (set(vs), [t])
+            keep = []
+            for h in groups:
+                if h[0] & g[0]:
+                    g = (g[0] | h[0], g[1] + h[1])
+                else:
+                    keep.append(h)
+            groups = keep + [g]
+        unknown = False
+        for vs_, ts in groups:
+            mvars = sorted(vs_)
+            size = 1
+            for v in mvars:
+                size *= len(cand.get(v, full))
             if size > self.limit:
-                return None
-        doms = [cand.get(v, self.dom) for v in mvars]
-        try:
-            for vals in itertools.product(*doms):
-                env = dict(zip(mvars, vals))
-                if all(ev(t, env) for t, _vs in multi):
-                    return True
-        except Unsupported:
-            return None
-        return False
+                unknown = True
+                continue
+            doms = [sorted(cand.get(v, full)) for v in mvars]
+            ok = False
+            try:
+                for vals in itertools.product(*doms):
+                    env = dict(zip(mvars, vals))
+                    if all(ev(t, env) for t in ts):
+                        ok = True
+                        break
+            except Unsupported:
+                unknown = True
+                continue
+            if not ok:
+                return False
+        return None if unknown else True
